@@ -127,7 +127,7 @@ def mh_line(r, p):
     return f"mh {r} {hf} {k} {seed} {num} {scaled} {int(track)}" + "".join(f" {h}:{a}" for h, a in ps)
 
 
-VIAS = ["str", "bytes", "gz", "path", "path", "ftext", "fbin", "fgz"]
+VIAS = ["str", "bytes", "gz", "path", "path", "ftext", "fbin", "fgz", "ftexttmp"]
 
 
 def gen_round(rng, max_size=300):
@@ -147,6 +147,8 @@ def gen_round(rng, max_size=300):
     sigs = [10 + i for i in range(n)]
     if rng.random() < 0.3:
         rng.shuffle(sigs)
+    if rng.random() < 0.15:
+        sigs.append(rng.choice(sigs))          # the same OBJECT twice in one file
     lines.append(f"save 0 {c} {fp} " + " ".join(map(str, sigs)))
     via = rng.choice(VIAS)
     lit = 1 if (via == "path" and rng.random() < 0.06) else 0
@@ -170,7 +172,7 @@ def gen_round(rng, max_size=300):
         lines.append(f"load {120 + 10 * j} 0 {rng.choice(VIAS)} {k} {m} 0 {rng.randint(0, 1)}")
     # write the loaded signatures again
     c2 = rng.choice([0, 0, 3, 9])
-    lines.append(f"save 1 {c2} 0 " + " ".join(str(100 + i) for i in range(n)))
+    lines.append(f"save 1 {c2} 0 " + " ".join(str(100 + i) for i in range(len(sigs))))
     if rng.random() < 0.5:
         lines.append(f"load 160 1 {rng.choice(VIAS)} - - 0 1")
     # pickling / copying every kind of object
@@ -194,6 +196,66 @@ def gen_round(rng, max_size=300):
         lines.append(f"sig {r} {g} {xs(gen_name(rng))} {xs(gen_name(rng))}")
         lines.append(f"save 2 {rng.choice([0, 5])} 0 {r}")
         lines.append(f"load {r + 1} 2 {rng.choice(VIAS)} - - 0 1")
+    # equality of what was saved and what was loaded (and of unrelated objects)
+    for _ in range(rng.randint(1, 3)):
+        i, j = rng.randrange(n), rng.randrange(n)
+        kind = rng.random()
+        if kind < 0.5:
+            lines.append(f"eq {10 + sigs[i] - 10} {100 + sigs.index(sigs[i])}")      # saved vs loaded at the same position
+        elif kind < 0.75:
+            lines.append(f"eq {10 + i} {100 + j}")
+        else:
+            lines.append(f"eq {i} {j}")                                               # two MinHash objects
+    lines.append(f"eq {g} {h}")                                                       # frozen sketch of the loaded sig vs the original
+    if rng.random() < 0.5:
+        lines.append(f"update 260 {100 + h}")
+    if rng.random() < 0.4:
+        one = rng.random() < 0.5 and n > 1
+        k = "-" if not one else str(params[h][1] * (1 if params[h][0] == 1 else 3))
+        mo = "-"
+        if rng.random() < 0.5:
+            mo = xs(rng.choice([MOL[params[h][0]], "DNA", "protein"]))
+        lines.append(f"loadone 270 0 {rng.choice(VIAS)} {k} {mo}")
+    if rng.random() < 0.35:
+        # ONE signature with several sketches (from_params), saved, loaded, copied, pickled
+        ks = rng.choice(["21,31", "21,31,51", "31", "4,5"])
+        is_num = rng.random() < 0.3
+        lines.append(f"params 30 {0 if is_num else rng.choice([1, 1000])} {rng.choice([1, 500]) if is_num else 0} "
+                     f"{rng.randint(0, 1)} {rng.choice([42, 0, 43])} {ks}")
+        lines.append("save 3 0 0 30")
+        lines.append(f"load 280 3 {rng.choice(VIAS)} - - 0 1")
+        lines.append(rng.choice(["eqp 30 30", "eqp 30 280", "eqp 280 30"]))
+        for op in rng.sample(["copy", "pickle", "tomut", "tofrozen"], 2):
+            lines.append(f"{op} {rng.randint(31, 39)} 30")
+    lines.append("recheck")
+    return lines
+
+
+def gen_cli(rng):
+    """the command-line routes that load and re-save: `sig cat`, `sig rename`, `sig split`; and `sig describe`"""
+    lines = []
+    n = rng.choice([1, 2, 3, 4])
+    for i in range(n):
+        p = gen_sketch_params(rng, 30)
+        lines.append(mh_line(i, p))
+        # (`sig split` puts the basename of the filename field into the name of the file it writes:
+        #  keep it short enough for a directory entry)
+        lines.append(f"sig {10 + i} {i} {xs(gen_name(rng))} {xs(gen_name(rng)[:40])}")
+    lines.append(f"save 0 {rng.choice([0, 0, 1, 9])} {rng.choice([0, 1])} " + " ".join(str(10 + i) for i in range(n)))
+    lines.append("cli cat 1 0")
+    newname = gen_name(rng)
+    while newname.startswith("-"):
+        newname = "x" + newname
+    lines.append(f"cli rename 2 0 {xs(newname)}")
+    lines.append("cli describe 0")
+    lines.append("cli split 0")
+    lines.append(f"load 100 1 {rng.choice(VIAS)} - - 0 1")
+    lines.append(f"load 120 2 {rng.choice(VIAS)} - - 0 1")
+    if rng.random() < 0.5:
+        lines.append("cli cat 3 2")
+        lines.append("cli describe 2")
+    lines.append(f"eq {10} {100}")
+    lines.append("recheck")
     return lines
 
 
@@ -319,6 +381,10 @@ def gen_odd(rng):
     lines.append("getmh 240 100")
     for op in rng.sample(["pickle", "copy", "tomut", "tofrozen"], 2):
         lines.append(f"{op} {rng.randint(241, 250)} 240")
+    if rng.random() < 0.5:
+        lines.append(f"loadone 255 {d} {rng.choice(VIAS)} - -")
+    lines.append("eq 100 200")
+    lines.append("recheck")
     return lines
 
 
@@ -522,7 +588,7 @@ def gen_text(rng):
     b = text.encode("utf-8")
     d = 8
     lines = [f"blob {d} h{b.hex()} - -"]
-    vias = ["str", "bytes", "gz", "path", "fbin", "ftext", "fgz"]
+    vias = ["str", "bytes", "gz", "path", "fbin", "ftext", "fgz", "ftexttmp"]
     lines.append(f"load 100 {d} {rng.choice(vias)} - - 0 1")
     lines.append(f"load 140 {d} {rng.choice(vias)} - - 0 0")
     if rng.random() < 0.3:
@@ -530,6 +596,7 @@ def gen_text(rng):
     lines.append("save 5 0 0 100")
     lines.append("save 6 0 0 100 101")
     lines.append("show 100")
+    lines.append("recheck")
     return lines
 
 
@@ -625,6 +692,8 @@ def gen_case(rng, flavour):
         return gen_odd(rng)
     if flavour == "sniff":
         return gen_sniff(rng)
+    if flavour == "cli":
+        return gen_cli(rng)
     if flavour == "text":
         return gen_text(rng)
     if flavour == "blob":
@@ -675,7 +744,7 @@ def post_model(lines):
 # ---------------------------------------------------------------------------
 # the property oracle, written from the statement (independent of the Lean model)
 
-FIELDS = ["name", "fn", "lic", "mol", "k", "seed", "num", "mx", "sc", "tr", "n", "md5", "hs"]
+FIELDS = ["nsk", "name", "fn", "lic", "mol", "k", "seed", "num", "mx", "sc", "tr", "n", "md5", "hs"]
 
 
 def parse_obj(text):
@@ -731,9 +800,98 @@ def oracle(case, impl):
     dump = {}       # doc handle -> dump line
     origin = {}     # loaded handle -> (doc, unfiltered?)
     hand = {}       # doc handle -> list of (license token, ...) for hand-crafted docs
+    cli_out = {}    # doc handle written by `cli cat` / `cli rename` -> (kind, source doc, new name)
     for idx, (op, obs) in enumerate(zip(case, impl)):
         w = op.split(" ")
         o = w[0]
+        if obs.startswith("err ViewError"):
+            bad.append((idx, "C09:views-disagree", f"`{op[:80]}`: {obs[14:300]}"))
+            continue
+        if o == "recheck":
+            continue
+        if o == "eqp":
+            if not obs.startswith("ok "):
+                bad.append((idx, "C09:eq-panics-on-from-params-signature",
+                            f"`{op}`: `==` with a signature built by from_params on the left answers {obs[:40]} "
+                            f"(PartialEq for Signature is `unimplemented!()` for B-tree sketches)"))
+            continue
+        if o == "cli":
+            sub = w[1]
+            if sub in ("describe", "split"):
+                d = int(w[2])
+                if d in saved and obs != f"ok n={sum(int(x.get('nsk', '1')) for x in saved[d])}":
+                    bad.append((idx, f"C09:cli-{sub}", f"`{op}` answered {obs[:120]} for a file holding {len(saved[d])} signatures"))
+                continue
+            d2, d = int(w[2]), int(w[3])
+            if not obs.startswith("ok gz="):
+                if d in saved:
+                    bad.append((idx, f"C09:cli-{sub}-refused", f"`{op[:80]}` answered {obs[:80]}"))
+                continue
+            dump[d2] = obs.split(" ", 2)[2]
+            if d in saved:
+                if sub == "cat":
+                    saved[d2] = saved[d]
+                    if d in dump and dump[d2] != dump[d]:
+                        bad.append((idx, "C09:cli-cat-differs", f"`sig cat` of a saved file writes a different document: "
+                                         f"{dump[d2][:100]} vs {dump[d][:100]}"))
+                elif sub == "rename":
+                    saved[d2] = [dict(x, name=w[4]) for x in saved[d]]      # only the name may change
+            continue
+        if o == "eq":
+            x, y = obj.get(int(w[1])), obj.get(int(w[2]))
+            if x is None or y is None or x.get("hand") or y.get("hand") or obs not in ("ok 0", "ok 1"):
+                if x is not None and y is not None and not (x.get("hand") or y.get("hand")) and x["kind"] == y["kind"] \
+                        and not obs.startswith("bad-op"):
+                    bad.append((idx, "C09:eq-refused", f"`{op}` answered {obs[:80]}"))
+                continue
+            if x["kind"] != y["kind"]:
+                continue
+            fl = ["name", "fn", "md5"] if x["kind"] == "sig" else ["mol", "k", "seed", "num", "mx", "tr", "hs"]
+            want = int(not same_fields(x, y, fl))
+            if obs != f"ok {want}":
+                bad.append((idx, "C09:eq-wrong", f"`{op}`: == answers {obs[3:]}, the two objects "
+                                 f"{'agree' if want else 'differ'} in {fl}"))
+            continue
+        if o == "update":
+            r, h = int(w[1]), int(w[2])
+            p = parse_obj(obs)
+            src = obj.get(h)
+            if p is not None and src is not None:
+                p["hand"] = src.get("hand", False)
+                obj[r] = p
+                diff = same_fields(src, p, FIELDS)
+                if diff and not src.get("hand"):
+                    bad.append((idx, "C09:update-changes:" + diff[0], f"`{op}`: field {diff[0]} changed"))
+            continue
+        if o == "params":
+            p = parse_obj(obs)
+            if p is not None:
+                obj[int(w[1])] = p
+            continue
+        if o == "loadone":
+            r, d, k, mo = int(w[1]), int(w[2]), w[4], w[5]
+            p = parse_obj(obs)
+            if d in hand or d not in saved:
+                if p is not None:
+                    p["hand"] = True
+                    obj[r] = p
+                continue
+            exp = saved[d]
+            if k != "-" and int(k) != 0:
+                exp = [x for x in exp if str(int(x["k"]) * (1 if x["mol"] == "DNA" else 3)) == k]   # stored k (C09.1)
+            if mo != "-":
+                exp = [x for x in exp if x["mol"].lower() == unx(mo).lower()]
+            if len(exp) == 1:
+                if p is None:
+                    bad.append((idx, "C09:loadone-refused", f"`{op}` answered {obs[:80]} for a file holding one matching signature"))
+                else:
+                    obj[r] = p
+                    diff = same_fields(exp[0], p, FIELDS)
+                    if diff:
+                        bad.append((idx, "C09:roundtrip-field:" + diff[0], f"`{op}`: field {diff[0]} differs"))
+            elif p is not None:
+                bad.append((idx, "C09:loadone-count", f"`{op}` returned a signature although {len(exp)} match"))
+            continue
         if o in ("mh", "sig", "getmh", "show"):
             p = parse_obj(obs)
             if p is not None:
@@ -759,9 +917,13 @@ def oracle(case, impl):
                 bad.append((idx, "C09:copy-resets-license",
                             f"`{op}`: the signature says license {unx(src['lic'])!r}, its {o} says {unx(p['lic'])!r} "
                             f"(__copy__/__reduce__ pass only minhash, name, filename to the constructor)"))
-            fields = FIELDS if src["kind"] == "sig" else FIELDS[3:]
+            fields = FIELDS if src["kind"] == "sig" else FIELDS[4:]
             diff = same_fields(src, p, fields)
-            if diff and not src.get("hand"):
+            if diff and diff[0] == "nsk":
+                bad.append((idx, "C09:copy-drops-sketches",
+                            f"`{op}`: the signature holds {src['nsk']} sketches, its {o} holds {p['nsk']} "
+                            f"(only the first sketch reaches the constructor)"))
+            elif diff and not src.get("hand"):
                 bad.append((idx, f"C09:{o}-changes:" + diff[0],
                             f"`{op}`: field {diff[0]} was {src.get(diff[0])[:60]} and is {p.get(diff[0])[:60]} afterwards"))
             continue
@@ -822,6 +984,15 @@ def oracle(case, impl):
             if d not in saved:
                 continue
             exp = saved[d]
+            if any(int(x.get("nsk", "1")) != 1 for x in exp):
+                # a signature holding several sketches is loaded as one signature per sketch
+                n_exp = sum(int(x.get("nsk", "1")) for x in exp)
+                if got is not None and k == "-" and m == "-" and len(got) != n_exp:
+                    bad.append((idx, "C09:load-count", f"`{op}`: {len(got)} signatures loaded from a file holding {n_exp} sketches"))
+                for i, g in enumerate(got or []):
+                    if g is not None:
+                        obj[r + i] = g
+                continue
             if m != "-":
                 mm = unx(m).lower()
                 if mm not in ("dna", "protein", "dayhoff", "hp"):
@@ -829,6 +1000,11 @@ def oracle(case, impl):
                 exp = [s for s in exp if s["mol"].lower() == mm]
             if k != "-" and int(k) != 0:
                 exp = [s for s in exp if user_k_matches(s, int(k))]
+            if via == "ftexttmp" and (got is None or (not got and exp)):
+                bad.append((idx, "C09:text-file-object-closed-before-read",
+                            f"`{op}`: a text-mode file object passed directly (`load_signatures_from_json(open(path))`) is "
+                            f"closed before it is read: {obs[:40]}"))
+                continue
             if got is None:
                 if lit == "1":
                     bad.append((idx, "C09:path-containing-class-literal",
